@@ -235,6 +235,13 @@ func c19Pairs(r *vk.Rand) []pair {
 		ps = append(ps, pair{fmt.Sprintf("nat-%dB-high-bit", w), []aitem{aNat(base)}, []aitem{aNat(hi)}})
 		ps = append(ps, pair{fmt.Sprintf("bigint-%dB-high-bit", w), []aitem{aBig(base)}, []aitem{aBig(hi)}})
 	}
+	// identifier lists whose members embed what a weakened framing would put between two identifiers
+	for _, sep := range []string{"\x00\x00\x00\x00\x00\x00\x00\x02", "\x00\x00\x00\x02", "\x00\x00\x00\x00\x00\x00\x00\x01", "\x00", ","} {
+		ps = append(ps, pair{fmt.Sprintf("idslice-embedded-separator-%x", sep), []aitem{aIDs([]string{"a", "b" + sep + "c"})}, []aitem{aIDs([]string{"a" + sep + "b", "c"})}})
+	}
+	for _, sep := range []string{"\x00\x00\x00\x00\x00\x00\x00\x03", "\x00\x00\x00\x03"} {
+		ps = append(ps, pair{fmt.Sprintf("idslice3-embedded-separator-%x", sep), []aitem{aIDs([]string{"a", "b" + sep + "c", "x"})}, []aitem{aIDs([]string{"a" + sep + "b", "c", "x"})}})
+	}
 	e1 := aExp(r, 2, false)
 	e2 := aExp(r, 2, false)
 	ps = append(ps, pair{"exponent-other", []aitem{e1}, []aitem{e2}})
